@@ -11,8 +11,11 @@ import (
 const hdr = "From Coq Require Import List String ZArith NArith Bool.\nImport ListNotations.\nFrom DV Require Import Model.Tree Model.Tables.\nLocal Open Scope string_scope.\nLocal Open Scope list_scope.\n\n"
 
 func genAll() {
+	loadTokens()
 	genUniverse()
 	genWalk()
+	genRestorer()
+	genPoints()
 }
 
 // ---------------------------------------------------------------------------------
@@ -144,6 +147,16 @@ func genUniverse() {
 			continue
 		}
 		kind := strings.TrimSuffix(name, "Decorations")
+		// only kinds whose struct really has a Decs field of this type
+		used := false
+		for _, fld := range dstStructs[kind] {
+			if fld.name == "Decs" && fld.ft == "FDecs "+q(name) {
+				used = true
+			}
+		}
+		if !used {
+			continue
+		}
 		var pts []string
 		hasNodeDecs := false
 		for _, fl := range dstructs[name].Fields.List {
